@@ -1,4 +1,4 @@
-HOOK_COMMITS = ["6c92ace"]
+HOOK_COMMITS = ["6c92ace", "87d794e"]
 NOT_APPLICABLE = {}
 CHECKS = {
  "C03": {
